@@ -222,6 +222,14 @@ func c15Message(m int) {
 	}
 	msgs, err := s.Message(context.Background(), duty)
 	_ = msgs
+	// the committee positions a duty is built from are shared: the controller hands the same map to
+	// the duties of every slot of the period and the head-event verification reads it unlocked, so
+	// a message job leaves it exactly as it was
+	vnd.Assert(len(indices) == m && len(duty.ContributionIndices()) == m, "C15.message.duty-data-shared-between-slots-is-left-as-it-was")
+	for i := 0; i < m; i++ {
+		ci, ok := indices[phase0.ValidatorIndex(20+i)]
+		vnd.Assert(ok && len(ci) == 1 && ci[0] == phase0.CommitteeIndex(i), "C15.message.duty-data-shared-between-slots-is-left-as-it-was")
+	}
 	if roots.fail {
 		vnd.Assert(err != nil && signer.calls == 0 && len(sub.calls) == 0, "C15.message.no-root-no-message")
 		return
